@@ -2,8 +2,9 @@
    graph collected by topsort.rs's get_dependencies is, row by row, exactly the declarative
    reference relation [refers] - for structs, aliases, consts and enums alike (since the repair of
    get_enum_dependencies an enum's row is an ordinary row: tuple payloads and struct-variant fields
-   are followed, the enum's own name is not pushed).  Hence, when [refers] is acyclic, topsort emits
-   every definition after all definitions it refers to.
+   are followed, the enum's own name is not pushed; since the repair of the Generic arm of
+   get_dependencies_from_type every argument of every generic type is followed, at any depth).  Hence,
+   when [refers] is acyclic, topsort emits every definition after all definitions it refers to.
 
    Shape of the argument
    1. (a general fact about toposort_impl, no longer used by the link) toposort_impl g =
@@ -207,7 +208,7 @@ Definition okp (seen : list str) (n : str) : bool := known n && negb (mem_str n 
 Fixpoint pushes (seen : list str) (t : rtype) : list str :=
   match t with
   | RSimple id => if okp seen id then [id] else []
-  | RGeneric id ps => if okp seen id then id :: filter (okp (id :: seen)) (map rtype_id ps) else []
+  | RGeneric id ps => (if okp seen id then [id] else []) ++ flat_map (pushes seen) ps
   | RVec x | RArray x _ | RSlice x | ROption x => pushes seen x
   | RHashMap k v => pushes seen k ++ pushes seen v
   | RPrim _ => []
@@ -236,37 +237,29 @@ Proof.
   - destruct (known id) eqn:EK; [apply known_T in EK as (it & EK); fold T in EK; congruence|reflexivity].
 Qed.
 
-Lemma params_fold ps : forall s,
-  fold_left (fun acc p => obind acc (visit_name T gd (rtype_id p))) ps (Some s) =
-  Some {| dres := dres s ++ filter (okp (dseen s)) (map rtype_id ps); dseen := dseen s |}.
+Definition deps_type_spec_at (t : rtype) : Prop := forall s,
+  deps_type T gd t s = Some {| dres := dres s ++ pushes (dseen s) t; dseen := dseen s |}.
+
+(* the argument loop of the Generic arm: each argument is a type in its own right *)
+Lemma params_fold ps : Forall deps_type_spec_at ps -> forall s,
+  fold_left (fun acc p => obind acc (deps_type T gd p)) ps (Some s) =
+  Some {| dres := dres s ++ flat_map (pushes (dseen s)) ps; dseen := dseen s |}.
 Proof.
-  induction ps as [|p ps IH]; intros s; cbn [fold_left map filter].
+  induction 1 as [|p ps Hp _ IH]; intros s; cbn [fold_left flat_map].
   - rewrite app_nil_r. now rewrite dstate_eta.
-  - cbn [obind]. rewrite visit_name_spec. destruct (okp (dseen s) (rtype_id p)).
-    + rewrite IH. unfold res_push. cbn [dres dseen]. now rewrite <- app_assoc.
-    + apply IH.
+  - cbn [obind]. rewrite Hp. rewrite IH. cbn [dres dseen]. now rewrite <- app_assoc.
 Qed.
 
-Lemma deps_type_spec t : forall s,
-  deps_type T gd t s = Some {| dres := dres s ++ pushes (dseen s) t; dseen := dseen s |}.
+Lemma deps_type_spec t : deps_type_spec_at t.
 Proof.
-  induction t as [id|id ps _|x IH|x n IH|x IH|k v IHk IHv|x IH|p] using rtype_ind'; intros s;
+  induction t as [id|id ps IHps|x IH|x n IH|x IH|k v IHk IHv|x IH|p] using rtype_ind'; intros s;
     cbn [deps_type pushes]; try apply IH.
   - rewrite visit_name_spec. destruct (okp (dseen s) id).
     + reflexivity.
     + rewrite app_nil_r. now rewrite dstate_eta.
-  - unfold okp. destruct (T id) as [it|] eqn:ET.
-    + rewrite (T_known _ _ ET). apply T_some in ET as (EN & _). cbn [andb].
-      unfold seen_insert. destruct (mem_str id (dseen s)) eqn:EM; cbn [negb].
-      * rewrite app_nil_r. now rewrite dstate_eta.
-      * unfold gd at 1. rewrite gd_noop.
-        2:{ rewrite EN. cbn [res_push dseen mem_str existsb]. now rewrite str_eqb_refl. }
-        cbn [obind]. rewrite params_fold. cbn [obind]. f_equal.
-        unfold seen_remove, res_push. cbn [dres dseen]. f_equal.
-        -- now rewrite <- app_assoc.
-        -- now apply filter_drop_fresh.
-    + destruct (known id) eqn:EK; [apply known_T in EK as (it & EK); fold T in EK; congruence|].
-      cbn [andb]. rewrite app_nil_r. now rewrite dstate_eta.
+  - rewrite visit_name_spec. cbn [obind]. destruct (okp (dseen s) id).
+    + rewrite (params_fold ps IHps). unfold res_push. cbn [dres dseen]. now rewrite <- app_assoc.
+    + rewrite (params_fold ps IHps). reflexivity.
   - rewrite IHk. cbn [obind]. rewrite IHv. cbn [dres dseen]. now rewrite <- app_assoc.
   - rewrite app_nil_r. now rewrite dstate_eta.
 Qed.
@@ -332,41 +325,43 @@ Proof.
     unfold oname; cbn [item_id visible_types flat_map]. rewrite str_eqb_refl. cbn [negb]. now rewrite app_nil_r.
 Qed.
 
-(* membership in [pushes] at top level = the spec's visible identifiers that name an item other than the collecting one *)
+(* membership in [pushes] at top level = the identifiers of the type (at any depth) that name an item other than the collecting one *)
 Lemma okp_spec seen n : okp seen n = true <-> known n = true /\ ~ In n seen.
 Proof. unfold okp. rewrite andb_true_iff, negb_true_iff, c11_mem_str_nIn. tauto. Qed.
 
-Lemma pushes_visible own t n :
-  In n (pushes [own] t) <-> In n (visible_idents known own t) /\ known n = true /\ n <> own.
+Lemma okp_head own id n :
+  In n (if okp [own] id then [id] else []) <-> n = id /\ known n = true /\ n <> own.
 Proof.
-  induction t as [id|id ps _|x IH|x k IH|x IH|k v IHk IHv|x IH|p] using rtype_ind';
-    cbn [pushes visible_idents]; try exact IH.
-  - destruct (okp [own] id) eqn:E.
-    + apply okp_spec in E as (K & NI). cbn [In] in *. split.
-      * intros [E0|[]]. subst n. repeat split; auto.
-      * intros ([E0|[]] & _). now left.
-    + split; [intros []|]. intros ([E0|[]] & K & NE). subst n. exfalso.
-      assert (X : okp [own] id = true) by (apply okp_spec; cbn [In]; split; [exact K|intros [X|[]]; congruence]).
-      congruence.
-  - assert (EC : okp [own] id = known id && negb (str_eqb id own)).
-    { unfold okp. cbn [mem_str existsb]. now rewrite orb_false_r. }
-    rewrite <- EC. destruct (okp [own] id) eqn:E.
-    + apply okp_spec in E as (K & NI). cbn [In] in NI. split.
-      * intros [E0|H]; [subst n; repeat split; auto; now left|].
-        apply filter_In in H as (H1 & H2). apply okp_spec in H2 as (K2 & NI2). cbn [In] in NI2.
-        repeat split; auto. now right.
-      * intros ([E0|H] & K2 & NE); [now left|].
-        destruct (str_eqb id n) eqn:EQ; [apply str_eqb_eq in EQ; now left|]. apply str_eqb_neq in EQ.
-        right. apply filter_In. split; [exact H|]. apply okp_spec. split; [exact K2|]. cbn [In]. intros [X|[X|[]]]; congruence.
-    + split; [intros []|]. intros ([E0|[]] & K & NE). subst n. exfalso.
-      assert (X : okp [own] id = true) by (apply okp_spec; cbn [In]; split; [exact K|intros [X|[]]; congruence]).
-      congruence.
+  destruct (okp [own] id) eqn:E.
+  - apply okp_spec in E as (K & NI). cbn [In] in *. split.
+    + intros [E0|[]]. subst n. repeat split; auto.
+    + intros (-> & _). now left.
+  - split; [intros []|]. intros (-> & K & NE). exfalso.
+    assert (X : okp [own] id = true) by (apply okp_spec; cbn [In]; split; [exact K|intros [X|[]]; congruence]).
+    congruence.
+Qed.
+
+Lemma pushes_visible own t n :
+  In n (pushes [own] t) <-> In n (type_idents t) /\ known n = true /\ n <> own.
+Proof.
+  induction t as [id|id ps IHps|x IH|x k IH|x IH|k v IHk IHv|x IH|p] using rtype_ind';
+    cbn [pushes type_idents]; try exact IH.
+  - rewrite okp_head. cbn [In]. split; [intros (-> & H); auto|intros ([->|[]] & H); auto].
+  - rewrite in_app_iff, okp_head. cbn [In]. rewrite !in_flat_map.
+    assert (X : (exists x, In x ps /\ In n (pushes [own] x)) <->
+                (exists x, In x ps /\ In n (type_idents x)) /\ known n = true /\ n <> own).
+    { rewrite Forall_forall in IHps. split.
+      - intros (x & Hx & H). apply (IHps x Hx) in H as (H1 & H2 & H3). eauto.
+      - intros ((x & Hx & H) & H2 & H3). exists x. split; [exact Hx|]. apply (IHps x Hx). auto. }
+    rewrite X. split.
+    + intros [(-> & H)|(H1 & H)]; auto.
+    + intros ([->|H1] & H); auto.
   - rewrite !in_app_iff, IHk, IHv. tauto.
   - split; [intros []|intros ([] & _)].
 Qed.
 
 Lemma pushes_flat_visible own ts n :
-  In n (flat_map (pushes [own]) ts) <-> In n (flat_map (visible_idents known own) ts) /\ known n = true /\ n <> own.
+  In n (flat_map (pushes [own]) ts) <-> In n (flat_map type_idents ts) /\ known n = true /\ n <> own.
 Proof.
   rewrite !in_flat_map. split.
   - intros (t & Ht & H). apply pushes_visible in H as (H1 & H2 & H3). eauto.
@@ -483,9 +478,9 @@ Qed.
 (* ------------------------------------------------------------------ 5. rows = references *)
 (* every kind of item, enums included *)
 Lemma row_edge a b : In a things -> In b things ->
-  (In (oname b) (row_names a) <-> edge_visible things a b = true /\ oname b <> oname a).
+  (In (oname b) (row_names a) <-> edge_visible a b = true /\ oname b <> oname a).
 Proof.
-  intros Ha Hb. unfold edge_visible. rewrite c11_mem_str_In. fold known. fold (oname a). fold (oname b).
+  intros Ha Hb. unfold edge_visible. rewrite c11_mem_str_In. fold (oname b).
   unfold row_names. rewrite pushes_flat_visible. pose proof (In_known b Hb). tauto.
 Qed.
 
@@ -497,9 +492,9 @@ Proof.
   apply (row_edge a a Ha Ha) in Hn as (_ & NE). now apply NE.
 Qed.
 
-Hypothesis complete : forall a b, In a things -> In b things -> refers a b = true -> edge_visible things a b = true.
+Hypothesis complete : forall a b, In a things -> In b things -> refers a b = true -> edge_visible a b = true.
 Hypothesis no_phantom : forall a b, In a things -> In b things ->
-  edge_visible things a b = true -> same_item a b = false -> refers a b = true.
+  edge_visible a b = true -> same_item a b = false -> refers a b = true.
 Hypothesis acyc : acyclic things = true.
 
 Definition irank (i : nat) : nat :=
@@ -593,24 +588,24 @@ Proof.
   unfold edge_class, cls. destruct (negb _); discriminate.
 Qed.
 Lemma phantom_class_some a b : phantom_class a b <> None.
-Proof. unfold phantom_class, cls. destruct (mem_str _ _); discriminate. Qed.
+Proof. unfold phantom_class, cls. discriminate. Qed.
 
 Lemma known_none things : known_C11 things = None ->
   has_dup_names things = false /\ alias_generic_shadows things = false /\
-  (forall a b, In a things -> In b things -> refers a b = true -> edge_visible things a b = true) /\
-  (forall a b, In a things -> In b things -> edge_visible things a b = true -> same_item a b = false -> refers a b = true).
+  (forall a b, In a things -> In b things -> refers a b = true -> edge_visible a b = true) /\
+  (forall a b, In a things -> In b things -> edge_visible a b = true -> same_item a b = false -> refers a b = true).
 Proof.
   unfold known_C11. destruct (has_dup_names things); [discriminate|].
   destruct (alias_generic_shadows things); [discriminate|].
   intros H. split; [reflexivity|]. split; [reflexivity|].
   assert (X : forall a b, In (a, b) (list_prod things things) ->
-              (refers a b && negb (edge_visible things a b) = false) /\
-              (edge_visible things a b && negb (same_item a b) && negb (refers a b) = false)).
+              (refers a b && negb (edge_visible a b) = false) /\
+              (edge_visible a b && negb (same_item a b) && negb (refers a b) = false)).
   { revert H. generalize (list_prod things things) as pairs.
     induction pairs as [|[a0 b0] pairs IH]; intros H a b Hin; [destruct Hin|].
-    destruct (refers a0 b0 && negb (edge_visible things a0 b0)) eqn:C1.
+    destruct (refers a0 b0 && negb (edge_visible a0 b0)) eqn:C1.
     { exfalso. now apply (edge_class_some a0 b0). }
-    destruct (edge_visible things a0 b0 && negb (same_item a0 b0) && negb (refers a0 b0)) eqn:C2.
+    destruct (edge_visible a0 b0 && negb (same_item a0 b0) && negb (refers a0 b0)) eqn:C2.
     { exfalso. now apply (phantom_class_some a0 b0). }
     destruct Hin as [[= <- <-]|Hin]; [auto|]. now apply IH. }
   split; intros a b Ha Hb.
@@ -618,6 +613,38 @@ Proof.
     now apply negb_false_iff in C1.
   - intros EV SI. destruct (X a b (in_prod _ _ _ _ Ha Hb)) as (_ & C2). rewrite EV, SI in C2. cbn [andb negb] in C2.
     now apply negb_false_iff in C2.
+Qed.
+
+(* what is left of the two edge classifications since every generic argument is followed *)
+Lemma visible_types_incl a t : In t (visible_types a) -> In t (item_types a).
+Proof.
+  destruct a as [st|[sh|tg ct sh]|al|c]; cbn [visible_types item_types enum_shared]; auto. intros [].
+Qed.
+
+(* a recorded edge that is no reference: the looked-up name is one of the item's own generic parameters *)
+Lemma phantom_is_param_shadow a b :
+  edge_visible a b = true -> same_item a b = false -> refers a b = false ->
+  mem_str (original (item_id b)) (item_generics a) = true.
+Proof.
+  unfold edge_visible, refers. intros EV SI R. rewrite SI in R. cbn [negb andb] in R.
+  unfold defined_names in R. cbn [existsb] in R. apply orb_false_iff in R as (R & _).
+  apply c11_mem_str_In in EV. apply in_flat_map in EV as (t & Ht & Hn).
+  destruct (mem_str (original (item_id b)) (item_generics a)) eqn:G; [reflexivity|exfalso].
+  apply c11_mem_str_nIn in R. apply R. unfold mentions. apply filter_In. split.
+  - apply in_flat_map. exists t. split; [now apply visible_types_incl|exact Hn].
+  - now rewrite G.
+Qed.
+
+(* a reference by ORIGINAL name that is not recorded: the referring item is a RustEnum::Unit whose
+   variants carry types (a shape the parser never builds) *)
+Lemma unrecorded_original_is_unit_enum a b :
+  refers a b = true -> edge_visible a b = false -> mem_str (original (item_id b)) (mentions a) = true ->
+  exists sh, a = ItEnum (EUnit sh) /\ flat_map variant_types (evariants sh) <> [].
+Proof.
+  intros _ EV M. apply c11_mem_str_In in M. unfold mentions in M. apply filter_In in M as (M & _).
+  unfold edge_visible in EV. apply c11_mem_str_nIn in EV.
+  destruct a as [st|[sh|tg ct sh]|al|c]; cbn [visible_types item_types enum_shared] in *; try (exfalso; now apply EV).
+  exists sh. split; [reflexivity|]. intros E. rewrite E in M. destruct M.
 Qed.
 
 (* END-TO-END: outside the recorded finding classes, with an acyclic reference relation, topsort
@@ -750,14 +777,6 @@ Lemma C11_generic_param_shadow_refuted :
     [w_struct "A" ["T"] [w_s "T"; w_s "B"]; w_struct "B" [] []; w_struct "T" [] [RGeneric (lit "A") [RPrim PU8]]].
 Proof. refute. Qed.
 
-(* struct A { f: G<Vec<u8>>, g: B }  struct B {}  struct G<T> { f: T }  struct Vec { f: A }: the id() "Vec"
-   of the special type standing as an argument of the typeshared generic G is looked up as an item name *)
-Lemma C11_special_id_collision_refuted :
-  c11_refutes "C11-special-id-collision"
-    [w_struct "A" [] [RGeneric (lit "G") [RVec (RPrim PU8)]; w_s "B"]; w_struct "B" [] [];
-     w_struct "G" ["T"] [w_s "T"]; w_struct "Vec" [] [w_s "A"]].
-Proof. refute. Qed.
-
 (* type A<T> = Vec<T>;  struct T { f: A<u8> }: the alias's generic parameter T is looked up and the
    struct T's own dependencies are collected into the row of A *)
 Lemma C11_alias_generic_shadow_refuted :
@@ -797,14 +816,51 @@ Lemma C11_enum_chain_fixed :
                  w_struct "C" [] []].
 Proof. pinned. Qed.
 
-(* struct A { f: Unknown<B> }  struct B {} *)
-Lemma C11_generic_arg_depth_refuted :
-  c11_refutes "C11-generic-arg-depth" [w_struct "A" [] [RGeneric (lit "Unknown") [w_s "B"]]; w_struct "B" [] []].
-Proof. refute. Qed.
+(* REGRESSION PINS of the two classes repaired in the Generic arm of get_dependencies_from_type (fix 25; they
+   were `_refuted` witnesses before): c11_pinned_ok, and the exact order the model's topsort emits *)
+Definition c11_pinned_as (w : list ritem) (names : list string) : Prop :=
+  c11_pinned_ok w /\ exists out, topsort w = Ok out /\ map oname out = map lit names.
 
-(* struct Foo<T> { f: Foo<Zed> }  struct Zed {}: a Generic named like the collecting item never has its arguments visited *)
-Lemma C11_generic_arg_depth_own_name_refuted :
-  c11_refutes "C11-generic-arg-depth" [w_struct "Foo" ["T"] [RGeneric (lit "Foo") [w_s "Zed"]]; w_struct "Zed" [] []].
+Ltac pinned_as := split; [pinned|eexists; split; vm_compute; reflexivity].
+
+(* struct A { f: Unknown<B> }  struct B {}: formerly C11-generic-arg-depth (arguments of a generic type that is no item) *)
+Lemma C11_generic_arg_depth_fixed :
+  c11_pinned_as [w_struct "A" [] [RGeneric (lit "Unknown") [w_s "B"]]; w_struct "B" [] []] ["B"; "A"].
+Proof. pinned_as. Qed.
+
+(* struct Foo<T> { f: Foo<Zed> }  struct Zed {}: formerly C11-generic-arg-depth (a Generic named like the collecting
+   item never had its arguments visited) *)
+Lemma C11_generic_arg_depth_own_name_fixed :
+  c11_pinned_as [w_struct "Foo" ["T"] [RGeneric (lit "Foo") [w_s "Zed"]]; w_struct "Zed" [] []] ["Zed"; "Foo"].
+Proof. pinned_as. Qed.
+
+(* struct A { f: G<Vec<B>>, g: Option<G<G<HashMap<String, C>>>> }  struct B {}  struct C {}  struct G<T> { f: T }:
+   formerly C11-generic-arg-depth (nested arguments of a typeshared generic: only the outermost id() was looked up) *)
+Lemma C11_generic_arg_depth_nested_fixed :
+  c11_pinned_as
+    [w_struct "A" [] [RGeneric (lit "G") [RVec (w_s "B")];
+                      ROption (RGeneric (lit "G") [RGeneric (lit "G") [RHashMap (RPrim PString) (w_s "C")]])];
+     w_struct "B" [] []; w_struct "C" [] []; w_struct "G" ["T"] [w_s "T"]]
+    ["G"; "B"; "C"; "A"].
+Proof. pinned_as. Qed.
+
+(* struct A { f: G<Vec<u8>>, g: B }  struct B {}  struct G<T> { f: T }  struct Vec { f: A }: formerly
+   C11-special-id-collision (the id() "Vec" of the special type standing as an argument of the typeshared generic G was
+   looked up as an item name; the phantom edge A -> Vec closed a cycle with the reference Vec -> A) *)
+Lemma C11_special_id_collision_fixed :
+  c11_pinned_as
+    [w_struct "A" [] [RGeneric (lit "G") [RVec (RPrim PU8)]; w_s "B"]; w_struct "B" [] [];
+     w_struct "G" ["T"] [w_s "T"]; w_struct "Vec" [] [w_s "A"]]
+    ["G"; "B"; "A"; "Vec"].
+Proof. pinned_as. Qed.
+
+(* enum U { V(B) } given as RustEnum::Unit  struct B {}: the one shape left in which a reference by original name is
+   not recorded - IR the parser never builds (a RustEnum::Unit has unit variants only); kept outside the theorems'
+   domain by the class C11-unit-enum-payload, which is no finding of the tool *)
+Lemma C11_unit_enum_payload_outside_domain :
+  c11_refutes "C11-unit-enum-payload"
+    [ItEnum (EUnit {| eid := w_id "U"; egenerics := []; ecomments := []; evariants := [VTuple (w_s "B") w_vsh]; edecs := [];
+                      erecursive := false; eredacted := false |}); w_struct "B" [] []].
 Proof. refute. Qed.
 
 (* type A = Vec<SR>;  #[serde(rename = "SR")] struct S {} *)
@@ -816,10 +872,10 @@ Lemma C11_renamed_refuted :
 Proof. refute. Qed.
 
 (* the hypotheses of the end-to-end theorem are satisfiable on a non-trivial input: references through
-   Vec, a typeshared generic's argument, Option inside an alias, HashMap, a const type; source order
-   against the references *)
+   Vec, a typeshared generic's argument, a nested argument of a generic type that is no item, Option
+   inside an alias, HashMap, a const type; source order against the references *)
 Definition c11_example : list ritem :=
-  [w_struct "A" [] [RVec (w_s "B"); RGeneric (lit "G") [w_s "C"]];
+  [w_struct "A" [] [RVec (w_s "B"); RGeneric (lit "G") [w_s "C"]; RGeneric (lit "Unknown") [RGeneric (lit "G") [RVec (w_s "D")]]];
    w_struct "B" [] [RHashMap (RPrim PString) (w_s "D")];
    w_struct "G" ["T"] [w_s "T"];
    w_alias "C" [] (ROption (w_s "B"));
